@@ -110,10 +110,10 @@ func (grid *RegularGrid) InsertQuad(q Quad) {
 
 	if quadToMerge == &q {
 		// case of append:
-		minXGridCoord := (uint)(math.Floor((float64)(minPoint.x-grid.Min.x) / (float64)(grid.Resolution)))
-		minYGridCoord := (uint)(math.Floor((float64)(minPoint.z-grid.Min.z) / (float64)(grid.Resolution)))
-		maxXGridCoord := (uint)(math.Floor((float64)(maxPoint.x-grid.Min.x) / (float64)(grid.Resolution)))
-		maxYGridCoord := (uint)(math.Floor((float64)(maxPoint.z-grid.Min.z) / (float64)(grid.Resolution)))
+		minXGridCoord := (uint)(math.Floor(grid.cellCoord(minPoint.x, grid.Min.x)))
+		minYGridCoord := (uint)(math.Floor(grid.cellCoord(minPoint.z, grid.Min.z)))
+		maxXGridCoord := (uint)(math.Floor(grid.cellCoord(maxPoint.x, grid.Min.x)))
+		maxYGridCoord := (uint)(math.Floor(grid.cellCoord(maxPoint.z, grid.Min.z)))
 
 		for i := minYGridCoord; i <= (uint)(math.Min((float64)(maxYGridCoord), (float64)(len(grid.Grid)-1))); i++ {
 			for j := minXGridCoord; j <= (uint)(math.Min((float64)(maxXGridCoord), (float64)(len(grid.Grid[i])-1))); j++ {
@@ -138,8 +138,8 @@ func (grid *RegularGrid) IntersectQuad(r Ray) (*Quad, float32) {
 	// check for single cell hit to avoid the extra computations:
 	if rayDir.Length() == 0 {
 		// figure out initial cell from ray origin:
-		cellX := (int)(math.Floor((float64)(newRay.From.x-grid.Min.x) / (float64)(grid.Resolution)))
-		cellY := (int)(math.Floor((float64)(newRay.From.z-grid.Min.z) / (float64)(grid.Resolution)))
+		cellX := (int)(math.Floor(grid.cellCoord(newRay.From.x, grid.Min.x)))
+		cellY := (int)(math.Floor(grid.cellCoord(newRay.From.z, grid.Min.z)))
 
 		if cellX < 0 || cellX >= len(grid.Grid[0]) {
 			return nil, -1
@@ -218,8 +218,8 @@ func (grid *RegularGrid) IntersectQuad(r Ray) (*Quad, float32) {
 		hitPoint := Add(newRay.From, Mul(rayDir, t))
 
 		// clamp to bounds
-		cellX := clampCellIndex(math.Floor((float64)(hitPoint.x-grid.Min.x)/(float64)(grid.Resolution)), len(grid.Grid[0]))
-		cellY := clampCellIndex(math.Floor((float64)(hitPoint.z-grid.Min.z)/(float64)(grid.Resolution)), len(grid.Grid))
+		cellX := clampCellIndex(math.Floor(grid.cellCoord(hitPoint.x, grid.Min.x)), len(grid.Grid[0]))
+		cellY := clampCellIndex(math.Floor(grid.cellCoord(hitPoint.z, grid.Min.z)), len(grid.Grid))
 
 		tMin := (float32)(math.Inf(1))
 		var resultQuad *Quad
@@ -275,10 +275,10 @@ func (grid *RegularGrid) GetRegion(min Vector3f, max Vector3f) []*Quad {
 	min = Vector3f{clamp(min.x, grid.Min.x, grid.Max.x), 0, clamp(min.z, grid.Min.z, grid.Max.z)}
 	max = Vector3f{clamp(max.x, grid.Min.x, grid.Max.x), 0, clamp(max.z, grid.Min.z, grid.Max.z)}
 
-	minXGridCoord := (uint)(math.Floor((float64)(min.x-grid.Min.x) / (float64)(grid.Resolution)))
-	minYGridCoord := (uint)(math.Floor((float64)(min.z-grid.Min.z) / (float64)(grid.Resolution)))
-	maxXGridCoord := (uint)(math.Floor((float64)(max.x-grid.Min.x) / (float64)(grid.Resolution)))
-	maxYGridCoord := (uint)(math.Floor((float64)(max.z-grid.Min.z) / (float64)(grid.Resolution)))
+	minXGridCoord := (uint)(math.Floor(grid.cellCoord(min.x, grid.Min.x)))
+	minYGridCoord := (uint)(math.Floor(grid.cellCoord(min.z, grid.Min.z)))
+	maxXGridCoord := (uint)(math.Floor(grid.cellCoord(max.x, grid.Min.x)))
+	maxYGridCoord := (uint)(math.Floor(grid.cellCoord(max.z, grid.Min.z)))
 
 	result := make(map[*Quad]bool, 0)
 	for y := minYGridCoord; y < maxYGridCoord; y++ {
@@ -395,6 +395,15 @@ func (grid *RegularGrid) ExpandToFitPoint(p *Vector3f) {
 	}
 }
 
+// cellCoord returns the (fractional) cell coordinate of v along an axis whose
+// first cell starts at min. The difference is taken in float64: taken in
+// float32 it is rounded differently once the grid has grown towards negative
+// coordinates (min has changed), and a footprint edge close to a cell boundary
+// would land in another cell than the one it was registered in.
+func (grid *RegularGrid) cellCoord(v, min float32) float64 {
+	return ((float64)(v) - (float64)(min)) / (float64)(grid.Resolution)
+}
+
 func (grid *RegularGrid) removeQuadFromCell(toRemove *Quad, x uint, y uint) {
 	contains, index := arrayContains(grid.Grid[y][x], toRemove)
 	if contains {
@@ -407,10 +416,10 @@ func (grid *RegularGrid) mergeQuads(existingQuad *Quad, newQuad *Quad) {
 
 	minPoint := Sub(existingQuad.Center, existingQuad.Extents)
 	maxPoint := Add(existingQuad.Center, existingQuad.Extents)
-	minXGridCoord0 := (uint)(math.Floor((float64)(minPoint.x-grid.Min.x) / (float64)(grid.Resolution)))
-	minYGridCoord0 := (uint)(math.Floor((float64)(minPoint.z-grid.Min.z) / (float64)(grid.Resolution)))
-	maxXGridCoord0 := (uint)(math.Floor((float64)(maxPoint.x-grid.Min.x) / (float64)(grid.Resolution)))
-	maxYGridCoord0 := (uint)(math.Floor((float64)(maxPoint.z-grid.Min.z) / (float64)(grid.Resolution)))
+	minXGridCoord0 := (uint)(math.Floor(grid.cellCoord(minPoint.x, grid.Min.x)))
+	minYGridCoord0 := (uint)(math.Floor(grid.cellCoord(minPoint.z, grid.Min.z)))
+	maxXGridCoord0 := (uint)(math.Floor(grid.cellCoord(maxPoint.x, grid.Min.x)))
+	maxYGridCoord0 := (uint)(math.Floor(grid.cellCoord(maxPoint.z, grid.Min.z)))
 
 	centerDiff := Sub(newQuad.Center, existingQuad.Center)
 	extentsDiff := Sub(newQuad.Extents, existingQuad.Extents)
@@ -420,10 +429,10 @@ func (grid *RegularGrid) mergeQuads(existingQuad *Quad, newQuad *Quad) {
 	// calculate the min cell and max cell again:
 	minPoint = Sub(existingQuad.Center, existingQuad.Extents)
 	maxPoint = Add(existingQuad.Center, existingQuad.Extents)
-	minXGridCoord1 := (uint)(math.Floor((float64)(minPoint.x-grid.Min.x) / (float64)(grid.Resolution)))
-	minYGridCoord1 := (uint)(math.Floor((float64)(minPoint.z-grid.Min.z) / (float64)(grid.Resolution)))
-	maxXGridCoord1 := (uint)(math.Floor((float64)(maxPoint.x-grid.Min.x) / (float64)(grid.Resolution)))
-	maxYGridCoord1 := (uint)(math.Floor((float64)(maxPoint.z-grid.Min.z) / (float64)(grid.Resolution)))
+	minXGridCoord1 := (uint)(math.Floor(grid.cellCoord(minPoint.x, grid.Min.x)))
+	minYGridCoord1 := (uint)(math.Floor(grid.cellCoord(minPoint.z, grid.Min.z)))
+	maxXGridCoord1 := (uint)(math.Floor(grid.cellCoord(maxPoint.x, grid.Min.x)))
+	maxYGridCoord1 := (uint)(math.Floor(grid.cellCoord(maxPoint.z, grid.Min.z)))
 
 	minMinX := minXGridCoord0
 	maxMinX := minXGridCoord1
